@@ -10,7 +10,10 @@ Correspondence, every run:
  (c) histories of 10-30 dictionary operations over pool keys run as Noulith statements in one env, observables
      after every step (result, full sorted contents) compared with the extracted model (flat slot model and the
      literal bucket structure) and with a Python association list keyed by exact value;
- (d) unique / set / count_distinct / frequencies / group_all / memoize on lists of pool keys.
+ (d) unique / set / count_distinct / frequencies / group_all / memoize on lists of pool keys;
+ (e) set / unique / count_distinct / frequencies / group_all / keys / values / items / dict on every input kind they accept
+     (lists, dictionaries with values and with defaults, strings, vectors, bytes, streams, results of one another), the full
+     canonical result (values and default included) compared with the oracle and the extracted model.
 """
 import json, struct
 from fractions import Fraction
@@ -136,11 +139,12 @@ def parse_canon(p):
             es.append((k, v))
             if p.peek() == ",":
                 p.eat(",")
+        dflt = None
         if p.peek() == "|":
             p.eat("|")
-            parse_canon(p)  # a default: ignored by Eq and Hash
+            dflt = parse_canon(p)  # a default: ignored by Eq and Hash, kept as an optional third component
         p.eat("}")
-        return ("D", tuple(es))
+        return ("D", tuple(es)) if dflt is None else ("D", tuple(es), dflt)
     raise ValueError(p.s[p.i:])
 
 
@@ -174,7 +178,7 @@ def canon(k):
     if t in "LV":
         return t + "[" + ",".join(canon(x) for x in k[1]) + "]"
     if t == "D":
-        return "D{" + ",".join(sorted(canon(a) + ":" + canon(b) for a, b in k[1])) + "}"
+        return "D{" + ",".join(sorted(canon(a) + ":" + canon(b) for a, b in k[1])) + ("|" + canon(k[2]) if len(k) > 2 else "") + "}"
     raise ValueError(k)
 
 
@@ -832,6 +836,301 @@ def run_lib(ctx, runner, pool, ncases):
     return {"lib_cases": len(cases), "lib_bad": bad}, cases
 
 
+# ----------------------------------------------------------------------------- (e) the library family on every input kind
+# set / unique / count_distinct / frequencies / group_all / keys / values / items / dict applied to lists, dictionaries with
+# values and with defaults, strings, vectors, bytes, streams and to the results of one another; the FULL canonical result
+# (values and default included) is compared.  Values are key structures; a dict may carry a default as third component.
+FUNS = ["set", "unique", "count", "freq", "group", "keys", "values", "items", "dict"]
+
+
+def mkdict(pairs, default=None):
+    """HashMap collect: the first key of a class is kept, the last value wins"""
+    es = []
+    for k, v in pairs:
+        c = cls(k)
+        for e in es:
+            if e[0] == c:
+                e[2] = v
+                break
+        else:
+            es.append([c, k, v])
+    d = ("D", tuple((e[1], e[2]) for e in es))
+    return d if default is None else d + (default,)
+
+
+def ambiguous(items):
+    """two items of one ==-class with different representations: which one a dedup keeps depends on the order"""
+    seen = {}
+    for x in items:
+        if seen.setdefault(cls(x), canon(x)) != canon(x):
+            return True
+    return False
+
+
+def has_class_dups(items):
+    cs = [cls(x) for x in items]
+    return len(set(cs)) != len(cs)
+
+
+def items_of(inp):
+    v, kind = inp["val"], inp["kind"]
+    if kind in ("list", "stream"):
+        return list(v[1]), inp["mode"] == "exact"
+    if kind == "dict":
+        return [k for k, _ in v[1]], False
+    if kind == "string":
+        return [("S", ch) for ch in v[1]], True
+    if kind == "vector":
+        return list(v[1]), True
+    if kind == "bytes":
+        return [("I", b) for b in v[1]], True
+    raise ValueError(kind)
+
+
+def wrap(kind, items):
+    """the container `unique`/`group_all` give back for an input of this kind"""
+    if kind == "string":
+        return ("S", "".join(x[1] for x in items))
+    if kind == "vector":
+        return ("V", tuple(items))
+    if kind == "bytes":
+        return ("B", tuple(x[1] for x in items))
+    return ("L", tuple(items))
+
+
+def first_of_class(items):
+    seen, out = [], []
+    for x in items:
+        if cls(x) not in seen:
+            seen.append(cls(x))
+            out.append(x)
+    return out
+
+
+def lib_apply(fn, inp):
+    """oracle: the value of fn(inp) over ==-classes, its kind, and how strictly it can be compared. None: not applicable"""
+    kind, mode = inp["kind"], inp["mode"]
+    if kind == "scalar":
+        return None
+    items, ordered = items_of(inp)
+    amb = (not ordered) and ambiguous(items)
+    norm = mode == "norm" or amb
+    src = inp["src"]
+    mk = lambda s, val, k, m: {"src": s, "val": val, "kind": k, "mode": "norm" if norm else m, "fn": fn, "arg": inp}
+    if fn == "set":
+        return mk("set(%s)" % src, mkdict([(k, ("N",)) for k in items]), "dict", "exact")
+    if fn == "unique":
+        out = first_of_class(items)
+        rk = kind if kind in ("string", "vector", "bytes") else "list"
+        return mk("unique(%s)" % src, wrap(kind, out), rk, "exact" if ordered else "sorted")
+    if fn == "count":
+        return mk("count_distinct(%s)" % src, ("I", len({cls(x) for x in items})), "scalar", "exact")
+    if fn == "freq":
+        es = []
+        for x in items:
+            for e in es:
+                if cls(e[0]) == cls(x):
+                    e[1] += 1
+                    break
+            else:
+                es.append([x, 1])
+        return mk("frequencies(%s)" % src, ("D", tuple((k, ("I", c)) for k, c in es), ("I", 0)), "dict", "exact")
+    if fn == "group":
+        gs = []
+        for x in items:
+            for g in gs:
+                if cls(g[0]) == cls(x):
+                    g.append(x)
+                    break
+            else:
+                gs.append([x])
+        r = mk("(%s group_all id)" % src, ("L", tuple(wrap(kind, g) for g in gs)), "list", "sorted")
+        if not ordered and has_class_dups(items):
+            r["mode"] = "norm"
+        return r
+    if fn == "keys":
+        if kind == "dict":
+            return mk("keys(%s)" % src, ("L", tuple(items)), "list", "sorted")
+        if kind == "list" and ordered:
+            return mk("keys(%s)" % src, ("L", tuple(("I", i) for i in range(len(items)))), "list", "exact")
+        return None
+    if fn == "values":
+        if kind == "dict":
+            return mk("values(%s)" % src, ("L", tuple(v for _, v in inp["val"][1])), "list", "sorted")
+        if kind == "list" and ordered:
+            return mk("values(%s)" % src, ("L", tuple(items)), "list", "exact")
+        return None
+    if fn == "items":
+        if kind == "dict":
+            return mk("items(%s)" % src, ("L", tuple(("L", (k, v)) for k, v in inp["val"][1])), "list", "sorted")
+        return None
+    if fn == "dict":
+        if kind == "dict":
+            return mk("dict(%s)" % src, inp["val"], "dict", "exact")
+        if kind in ("list", "stream") and items and all(x[0] == "L" and len(x[1]) == 2 for x in items):
+            r = mk("dict(%s)" % src, mkdict([(x[1][0], x[1][1]) for x in items]), "dict", "exact")
+            if not ordered and has_class_dups([x[1][0] for x in items]):
+                r["mode"] = "norm"
+            return r
+        return None
+    raise ValueError(fn)
+
+
+def norm(v, depth=0):
+    """comparison up to the choice of representative and the order of the outer lists (used only when the
+    implementation's HashMap iteration order decides which representative survives)"""
+    t = v[0]
+    if t == "L":
+        xs = [norm(x, depth + 1) for x in v[1]]
+        return ("L", tuple(sorted(xs, key=repr)) if depth <= 1 else tuple(xs))
+    if t == "D":
+        return ("D", frozenset((cls(a), norm(b, 2)) for a, b in v[1]), norm(v[2], 2) if len(v) > 2 else None)
+    return cls(v)
+
+
+def lib_agrees(got_text, exp, mode):
+    """got_text: canonical text printed by the implementation or the model; exp: expected value structure"""
+    try:
+        got = parse(got_text)
+    except Exception:
+        return False
+    if mode == "exact":
+        return canon(got) == canon(exp) and got_text == canon(exp)
+    if mode == "sorted":
+        return got[0] == exp[0] == "L" and sorted(canon(x) for x in got[1]) == sorted(canon(x) for x in exp[1])
+    return norm(got) == norm(exp)
+
+
+def gen_lib_input(ctx, pool, multi, numeric):
+    rng = ctx.rng
+    pick = lambda: rng.choice(rng.choice(multi)) if rng.random() < 0.7 else rng.randrange(len(pool))
+    kind = rng.choices(["list", "dict", "string", "vector", "bytes", "stream"], [4, 6, 1, 2, 1, 2])[0]
+    if kind in ("list", "stream"):
+        if kind == "stream" and rng.random() < 0.3:
+            a, b = rng.randint(0, 3), rng.randint(0, 5)
+            return {"src": "(%d to %d)" % (a, b), "val": ("L", tuple(("I", i) for i in range(a, b + 1))), "kind": "stream", "mode": "exact"}
+        idxs = [pick() for _ in range(rng.randint(0, 6))]
+        lst = "[" + ", ".join(pool[i]["src"] for i in idxs) + "]"
+        return {"src": lst if kind == "list" else "stream(%s)" % lst, "val": ("L", tuple(pool[i]["key"] for i in idxs)),
+                "kind": kind, "mode": "exact"}
+    if kind == "dict":
+        pairs, srcs = [], []
+        for _ in range(rng.randint(0, 5)):
+            i = pick()
+            r = rng.random()
+            if r < 0.4:
+                n = rng.randint(0, 9)
+                v, vs = ("I", n), str(n)
+            elif r < 0.6:
+                w = rng.choice(["one", "two", "x"])
+                v, vs = ("S", w), '"%s"' % w
+            elif r < 0.7:
+                v, vs = ("N",), "null"
+            else:
+                j = pick()
+                v, vs = pool[j]["key"], pool[j]["src"]
+            pairs.append((pool[i]["key"], v))
+            srcs.append("%s: %s" % (pool[i]["src"], vs))
+        d = rng.choice([None, None, (("I", 0), "0"), (("N",), "null"), (("S", "x"), '"x"')])
+        body = ([":" + d[1]] if d else []) + srcs
+        return {"src": "{" + ", ".join(body) + "}", "val": mkdict(pairs, d[0] if d else None), "kind": "dict", "mode": "exact"}
+    if kind == "string":
+        w = rng.choice(["", "a", "ab", "aab", "abcab", "zzz"])
+        return {"src": '"%s"' % w, "val": ("S", w), "kind": "string", "mode": "exact"}
+    if kind == "vector":
+        idxs = [rng.choice(numeric) for _ in range(rng.randint(1, 5))]
+        return {"src": "V(" + ", ".join(pool[i]["src"] for i in idxs) + ")", "val": ("V", tuple(pool[i]["key"] for i in idxs)),
+                "kind": "vector", "mode": "exact"}
+    bs = [rng.randint(0, 3) for _ in range(rng.randint(0, 5))]
+    return {"src": "B[" + ",".join(map(str, bs)) + "]", "val": ("B", tuple(bs)), "kind": "bytes", "mode": "exact"}
+
+
+def lib_model_line(e):
+    """the outermost application as a model command, when its argument is fully determined"""
+    arg, fn = e["arg"], e["fn"]
+    if arg["kind"] == "dict":
+        v = arg["val"]
+        d = "d " + model_key(v[2]) if len(v) > 2 else "_"
+        return "dictop %s %s %d %s" % (fn, d, len(v[1]), " ".join(model_key(a) + " " + model_key(b) for a, b in v[1]))
+    if arg["mode"] != "exact" or fn not in ("set", "unique", "count", "freq", "group"):
+        return None
+    items, _ = items_of(arg)
+    cmd = {"set": "setof", "unique": "unique", "count": "count", "freq": "freq", "group": "group"}[fn]
+    return "%s %d %s" % (cmd, len(items), " ".join(model_key(x) for x in items))
+
+
+def lib_model_value(e, text):
+    """the model answers over plain item lists; put its answer into the container the implementation uses"""
+    arg, fn = e["arg"], e["fn"]
+    if arg["kind"] == "dict" or fn in ("set", "count", "freq"):
+        return text
+    v = parse(text)
+    if fn == "unique":
+        return canon(wrap(arg["kind"], list(v[1])))
+    return canon(("L", tuple(wrap(arg["kind"], list(g[1])) for g in v[1])))
+
+
+def run_lib_all_kinds(ctx, runner, pool, ncases):
+    rng = ctx.rng
+    bycls = {}
+    for e in pool:
+        bycls.setdefault(e["cls"], []).append(e["idx"])
+    multi = [v for v in bycls.values() if len(v) > 1]
+    numeric = [e["idx"] for e in pool if e["key"][0] in "IRFC"]
+    exprs = []
+    tries = 0
+    while len(exprs) < ncases and tries < 20 * ncases:
+        tries += 1
+        e = gen_lib_input(ctx, pool, multi, numeric)
+        for _ in range(rng.choice([1, 1, 2, 2, 3])):
+            r = lib_apply(rng.choice(FUNS), e)
+            if r is None:
+                break
+            e = r
+        if "fn" in e:
+            exprs.append(e)
+    res = common.run_prog([e["src"] for e in exprs], timeout=20.0)
+    mlines = [lib_model_line(e) for e in exprs]
+    midx = [i for i, l in enumerate(mlines) if l is not None]
+    mres = dict(zip(midx, common.run_model(runner, [mlines[i] for i in midx]))) if runner else {}
+    st = {"lib_all_kinds_cases": len(exprs), "lib_all_kinds_model_compared": 0, "lib_all_kinds_bad": 0,
+          "by_outer_fn": {}, "by_arg_kind": {}, "by_mode": {}}
+    distinct = set()
+    for i, (e, r) in enumerate(zip(exprs, res)):
+        st["by_outer_fn"][e["fn"]] = st["by_outer_fn"].get(e["fn"], 0) + 1
+        st["by_arg_kind"][e["arg"]["kind"]] = st["by_arg_kind"].get(e["arg"]["kind"], 0) + 1
+        st["by_mode"][e["mode"]] = st["by_mode"].get(e["mode"], 0) + 1
+        distinct.add(e["src"])
+        got = r.get("val") if r.get("status") == "ok" else r.get("status")
+        rep = {"program": e["src"], "implementation": got, "python_oracle": canon(e["val"]), "comparison": e["mode"],
+               "expected": canon(e["val"]) if e["mode"] == "exact" else None, "implementation_msg": r.get("msg")}
+        if r.get("status") != "ok" or not lib_agrees(got, e["val"], e["mode"]):
+            st["lib_all_kinds_bad"] += 1
+            rep["what"] = ("the full result (keys, values, default) differs from the one computed over ==-classes: set(x) maps every item/key "
+                           "of x to null without default; unique/frequencies/group_all/count_distinct work on classes; keys/values/items/dict "
+                           "preserve entries (comparison mode '%s': exact text, sorted outer list, or up to representative)" % e["mode"])
+            report(ctx, "property", rep, True)
+            continue
+        if i in mres:
+            st["lib_all_kinds_model_compared"] += 1
+            try:
+                mv = lib_model_value(e, mres[i])
+                # the model is compared with the implementation's answer in the same mode (never stricter than 'sorted'
+                # when the argument is a dictionary: its iteration order is not modelled)
+                mode = e["mode"] if e["arg"]["kind"] != "dict" or e["fn"] in ("set", "dict", "freq", "count") else \
+                    ("norm" if e["mode"] == "norm" else "sorted")
+                okm = lib_agrees(mv, parse(got), mode if mode != "exact" else "exact")
+            except Exception as ex:
+                mv, okm = "unparsable: %s (%s)" % (mres[i], ex), False
+            if not okm:
+                st["lib_all_kinds_bad"] += 1
+                rep["coq_model"] = mv
+                rep["model_line"] = mlines[i]
+                rep["what"] = "correspondence Dict/DictMap.v library functions <-> implementation no longer checks; the oracle accepts the implementation"
+                report(ctx, "correspondence", rep, False)
+    return st, distinct, [{"program": e["src"], "oracle": canon(e["val"]), "mode": e["mode"]} for e in exprs[:6]]
+
+
 # ----------------------------------------------------------------------------- driver entry points
 def run(ctx):
     runner = common.standard_prelude(ctx)
@@ -844,23 +1143,28 @@ def run(ctx):
     hstats, nontrivial, samples = run_histories(ctx, runner, pool, ctx.n(500, 6000))
     lstats, lcases = run_lib(ctx, runner, pool, ctx.n(300, 3000))
     st.update(lstats)
-    evaluations = st["hash_compared"] + st["eq_pairs"] + st["lookup_programs"] + hstats["steps"] + st["lib_cases"]
+    l2stats, l2distinct, l2samples = run_lib_all_kinds(ctx, runner, pool, ctx.n(1200, 12000))
+    evaluations = st["hash_compared"] + st["eq_pairs"] + st["lookup_programs"] + hstats["steps"] + st["lib_cases"] + \
+        l2stats["lib_all_kinds_cases"]
     classes = {}
     for e in pool:
         classes.setdefault(e["cls"], set()).add(e["canon"])
     ctx.coverage.update({
         "evaluations": evaluations,
-        "distinct_nontrivial": len(nontrivial) + st["equal_pairs_cross_repr"],
+        "distinct_nontrivial": len(nontrivial) + st["equal_pairs_cross_repr"] + len(l2distinct),
         "rule": "evaluations = pool keys hashed on both sides + ordered key pairs compared for == + lookup programs + history steps + library "
                 "cases. non-trivial = (i) ordered pairs of pool keys that are == by the exact-value oracle but have different "
                 "representations (their Hasher write sequences must coincide), plus (ii) distinct history steps (operation, probe "
                 "representation, set of other representations of the same ==-class already used in that history) where the probe is == "
-                "to a key handled earlier under another representation, and distinct compound-operation literals",
+                "to a key handled earlier under another representation, and distinct compound-operation literals, plus (iii) distinct "
+                "library programs (set/unique/count_distinct/frequencies/group_all/keys/values/items/dict, nested up to 3 deep, over "
+                "lists, dictionaries with values and defaults, strings, vectors, bytes, streams)",
+        "library_all_kinds": l2stats,
         "pool_keys": len(pool), "pool_classes": len(classes),
         "pool_classes_with_several_representations": sum(1 for v in classes.values() if len(v) > 1),
         "hash_tie": st, "histories": hstats,
         "samples": [{"key": e["src"], "value": e["canon"], "implementation_tokens": e["tokens"], "coq_model_tokens": e.get("model_tokens")}
-                    for e in pool[::max(1, len(pool) // 8)]][:8] + samples,
+                    for e in pool[::max(1, len(pool) // 8)]][:8] + samples + l2samples,
     })
     ctx.assumptions += [
         "std HashMap finds an entry for a probe iff it lies in the bucket selected by the probe's Hasher write sequence and is Eq to it "
@@ -894,6 +1198,8 @@ def replay(ctx, rep):
         got = r.get("val") if r.get("status") == "ok" else r.get("status")
         print(json.dumps({"program": rep["program"], "implementation_now": got, "expected": rep.get("expected"),
                           "oracle_equal": rep.get("oracle_equal")}, ensure_ascii=False))
+        if "comparison" in rep:
+            return 0 if (got is not None and lib_agrees(got, parse(rep["python_oracle"]), rep["comparison"])) else 1
         if "expected" in rep:
             return 0 if got == rep["expected"] else 1
         if rep.get("oracle_equal"):
